@@ -69,7 +69,13 @@ func (e *C01) one(ctx *core.Ctx) {
 			{}, // empty term matches nothing
 		}}}}
 	}
-	switch r.Intn(4) {
+	switch r.Intn(7) {
+	case 4: // every key, but one effect only
+		tpl.Spec.Tolerations = []corev1.Toleration{{Operator: corev1.TolerationOpExists, Effect: corev1.TaintEffectNoSchedule}}
+	case 5:
+		tpl.Spec.Tolerations = []corev1.Toleration{{Operator: corev1.TolerationOpExists, Effect: corev1.TaintEffectNoExecute}}
+	case 6: // a keyed toleration for the wrong effect next to an every-key one for the other effect
+		tpl.Spec.Tolerations = []corev1.Toleration{{Key: "evict", Operator: corev1.TolerationOpExists, Effect: corev1.TaintEffectNoSchedule}, {Operator: corev1.TolerationOpExists, Effect: corev1.TaintEffectNoSchedule}}
 	case 0:
 		tpl.Spec.Tolerations = []corev1.Toleration{{Operator: corev1.TolerationOpExists}}
 	case 1:
